@@ -568,9 +568,64 @@ def r_stateless_getters(c):
                 "graph answers with predecessors remembered from the first")
 
 
+def r_user_is_the_node(c):
+    """the USER recorded for a child is the node the handler is visiting: whatever is
+    added to the users table is the handler's own node parameter, and a helper that
+    records users for a shape / index tuple (`rec_idx_or_size_tuple(user, tuple)`) is
+    handed that parameter, not one of the node's fields (x[idx] uses idx; x does not)"""
+    m = c.model
+    n = 0
+    for cls, tbl in (("pytato.transform.UsersCollector", "node_to_users"),
+                     ("pytato.analysis.ListOfUsersCollector", "array_to_users")):
+        ci = m.cls(cls)
+        # helpers that record users on behalf of their caller: methods with a
+        # parameter that is added to the table
+        helper_param = {}
+        for mn, fd in ci.methods.items():
+            if mn.startswith("map_") or mn.startswith("_map_") or len(fd.args.args) < 3:
+                continue
+            for x in ast.walk(fd):
+                if isinstance(x, ast.Call) and isinstance(x.func, ast.Attribute) \
+                        and x.func.attr in ("add", "append") and tbl in ast.unparse(x.func.value) \
+                        and x.args and isinstance(x.args[0], ast.Name) \
+                        and x.args[0].id in [a.arg for a in fd.args.args[1:]]:
+                    helper_param[mn] = [a.arg for a in fd.args.args[1:]].index(x.args[0].id)
+        for mn, fd in sorted(ci.methods.items()):
+            if not (mn.startswith("map_") or mn.startswith("_map_")) or len(fd.args.args) < 2:
+                continue
+            ep = fd.args.args[1].arg
+            for x in ast.walk(fd):
+                if not isinstance(x, ast.Call):
+                    continue
+                what = None
+                if isinstance(x.func, ast.Attribute) and x.func.attr in ("add", "append") \
+                        and tbl in ast.unparse(x.func.value) and x.args:
+                    what = x.args[0]
+                elif isinstance(x.func, ast.Attribute) and isinstance(x.func.value, ast.Name) \
+                        and x.func.value.id == "self" and x.func.attr in helper_param \
+                        and len(x.args) > helper_param[x.func.attr]:
+                    what = x.args[helper_param[x.func.attr]]
+                if what is None:
+                    continue
+                n += 1
+                ex = EXEMPT.get(("R20-CONVERSE", f"{short(cls)}.{mn}:user={ast.unparse(what)}"))
+                if ex and ast.unparse(what) != ep:
+                    c.exempt("R20-CONVERSE", f"{short(cls)}.{mn}",
+                             f"user-is-the-visited-node:{m.frag(x, 50)}", m.loc(ci.module, x), ex)
+                    continue
+                c.check(ast.unparse(what) == ep, "R20-CONVERSE", f"{short(cls)}.{mn}",
+                        f"user-is-the-visited-node:{m.frag(x, 50)}", m.loc(ci.module, x),
+                        f"`{m.frag(what, 30)}` is recorded as the user, not the node `{ep}` the "
+                        "handler visits: the users relation is no longer the converse of "
+                        "the predecessors relation")
+    if n < 20:
+        raise AnalysisError(f"only {n} user registrations found (floor 20)")
+
+
 SPEC = Spec(
     prop="C20",
-    rules=[r_converse, r_topo, r_count, r_materialized, r_deps_self, r_stateless_getters],
+    rules=[r_converse, r_topo, r_count, r_materialized, r_deps_self, r_stateless_getters,
+           r_user_is_the_node],
     floors={"R20-CONVERSE": 90, "R20-TOPO": 40, "R20-COUNT": 10, "R20-MATERIALIZED": 7,
             "R20-DEPS": 26},
     explanation=(
